@@ -11,6 +11,7 @@ mod duals;
 mod hols;
 mod linalg;
 mod rng;
+mod splines;
 
 use std::io::{BufRead, BufWriter, Write};
 
@@ -20,6 +21,7 @@ pub struct State {
     pub duals: duals::DualState,
     pub curves: curves::CurveState,
     pub fx: fx::FxState,
+    pub splines: splines::SplineState,
 }
 
 fn run() {
@@ -34,6 +36,7 @@ fn run() {
         duals: duals::DualState::default(),
         curves: curves::CurveState::default(),
         fx: fx::FxState::default(),
+        splines: splines::SplineState::default(),
     };
     for line in stdin.lock().lines() {
         let line = line.unwrap();
@@ -49,6 +52,7 @@ fn step(st: &mut State, toks: &[&str]) -> String {
         st.duals = duals::DualState::default();
         st.curves = curves::CurveState::default();
         st.fx = fx::FxState::default();
+        st.splines = splines::SplineState::default();
         return "ok".to_string();
     }
     if let Some(a) = dates::step(&mut st.dates, toks) {
@@ -64,6 +68,9 @@ fn step(st: &mut State, toks: &[&str]) -> String {
         return a;
     }
     if let Some(a) = linalg::step(&st.duals, toks) {
+        return a;
+    }
+    if let Some(a) = splines::step(&st.duals, &mut st.splines, toks) {
         return a;
     }
     if let Some(a) = hols::step(&mut st.hols, toks) {
@@ -92,6 +99,8 @@ fn main() {
                 "C11" => curves::gen_c11(&mut out, thorough, seed),
                 "C12" => curves::gen_c12(&mut out, thorough, seed),
                 "C13" => linalg::gen_c13(&mut out, thorough, seed),
+                "C14" => splines::gen_c14(&mut out, thorough, seed),
+                "C15" => splines::gen_c15(&mut out, thorough, seed),
                 "C17" => duals::gen_c17(&mut out, thorough, seed),
                 "C18" => duals::gen_c18(&mut out, thorough, seed),
                 "C19" => duals::gen_c19(&mut out, thorough, seed),
